@@ -40,6 +40,13 @@ def isLate (op : OpSpec) : Bool := match op.op with | .append _ (some k) => k ==
 def stepExpect (c : Case) (minSize : Nat) (x : Expect) (op : OpSpec) : Expect :=
   match op.op, op.rec? with
   | .append _ _, some r =>
+    if op.fail.isSome then
+      -- the encoder fails, but the policy has already been consulted (get_writer → policy → encode):
+      -- the first record to ARRIVE decides; after a rotation `get_writer` has recreated the file
+      if x.first ∧ x.active.length ≥ minSize then
+        { window := Spec.rotateWindow c.window.2 x.window x.active, active := [], first := false, present := true }
+      else { x with first := false, present := true }
+    else
     if x.first ∧ x.active.length ≥ minSize then
       -- the one rotation; when the roller reports Err (after doing its work) the append fails
       -- before the record is written: the old content is archived, no new file yet
@@ -54,13 +61,14 @@ def specGo (c : Case) (minSize : Nat) : Nat → Expect → List OpSpec → List 
   | k, x, op :: ops, e :: es =>
     let x' := stepExpect c minSize x op
     let rolledNow := x.first ∧ x.active.length ≥ minSize ∧ op.rec?.isSome
-    let expectErr := rolledNow ∧ isLate op
+    let expectErr := (rolledNow ∧ isLate op) ∨ op.fail.isSome
     if e.res = "PANIC" then some ("panic at op " ++ toString k)
     else if e.calls ≠ (if rolledNow then 1 else 0) then
       some (toString e.calls ++ " rotation request(s) to the roller at op " ++ toString k ++ ", expected " ++ (if rolledNow then "exactly 1" else "none"))
     else if op.rec?.isSome ∧ (e.res = "ok") = expectErr then some ("append result " ++ e.res ++ " at op " ++ toString k)
     else if e.snapS ≠ renderExpect c x' then
-      some ((if rolledNow then "first record: old content is not the newest archive / record not alone in a fresh file"
+      some ((if rolledNow ∧ op.fail.isSome then "first record (its encoder failed): the start-up rotation must still happen while it is handled"
+             else if rolledNow then "first record: old content is not the newest archive / record not alone in a fresh file"
              else if x.first ∧ op.rec?.isSome then "first record rolled although the file was smaller than min_size (or lost data)"
              else "later operation changed more than appending the record") ++ " at op " ++ toString k)
     else specGo c minSize (k + 1) x' ops es
@@ -83,7 +91,10 @@ def handleSeq (cas obs : List String) : Answer :=
             | none => "ok"
             | some why => "FAIL:" ++ why ++ ";sig=" ++ c.sig "C17"
       let sz := x0.active.length
+      let firstFails := match ops.find? (fun o => o.rec?.isSome) with | some o => o.fail.isSome | none => false
       let tags := modelTags c ops tr ++ ["min-" ++ toString minSize] ++
+        (if firstFails then ["first-record-encoder-fails"] else []) ++
+        (if ops.any (fun o => o.fail.isSome) then ["encoder-error"] else []) ++
         [if sz + 1 = minSize then "size=min-1" else if sz = minSize then "size=min" else if sz = minSize + 1 then "size=min+1"
          else if sz < minSize then "size<min" else "size>min"]
       { model, spec, tags := if ops.isEmpty then "trivial" :: tags else "seq" :: tags }
